@@ -10,6 +10,7 @@ SimSocket follows CPython's contract that socket.close() only marks the socket c
 file objects from makefile() are still open (the _io_refs rule); the connection is released
 when the last of them is closed.
 """
+import io
 import heapq
 
 from .sched import SimAbort
@@ -30,14 +31,14 @@ class Pipe:
 
 
 class SimNet:
-    def __init__(self, clock, log=None, auto_latency=None):
+    def __init__(self, clock, log=None, auto_latency=None, first_fd=10):
         self.clock = clock            # object with .now
         self.log = log
         self.events = []              # heap of (time, seq, fn)
         self.seq = 0
         self.listeners = {}
         self.fds = {}
-        self.next_fd = 10
+        self.next_fd = first_fd       # 0 for a process that closed its standard streams before opening sockets
         self.next_port = 40000
         self.auto_latency = auto_latency   # None: explicit deliveries only; number: every write is delivered after it
         self.stats = {}
@@ -148,6 +149,40 @@ class SimFile:
         return self.sock.fileno()
 
 
+class _SimRaw(io.RawIOBase):
+    """Raw-stream face of a SimFile for io.BufferedReader / io.BufferedWriter."""
+    def __init__(self, f, mode):
+        self._f = f
+        self._mode = mode
+
+    def readable(self):
+        return 'r' in self._mode
+
+    def writable(self):
+        return 'w' in self._mode
+
+    def readinto(self, b):
+        data = self._f.read(len(b))
+        b[:len(data)] = data
+        return len(data)
+
+    def write(self, b):
+        return self._f.write(bytes(b))
+
+    def fileno(self):
+        return self._f.fileno()
+
+    def close(self):
+        if not self.closed:
+            try:
+                self._f.close()
+            finally:
+                super().close()
+
+    def __del__(self):
+        pass        # no implicit close from the collector: closing is an event of the simulated history
+
+
 class SimSocket:
     def __init__(self, net):
         self.net = net
@@ -218,7 +253,14 @@ class SimSocket:
 
     def makefile(self, mode='r', buffering=None, **kw):
         self._io_refs += 1
-        return SimFile(self, mode)
+        f = SimFile(self, mode)
+        if buffering == 0:
+            return f
+        # like socket.makefile(): anything but buffering=0 wraps the raw stream in the real io buffering classes
+        size = buffering if buffering and buffering > 0 else io.DEFAULT_BUFFER_SIZE
+        raw = _SimRaw(f, mode)
+        self.net.count('buffered_makefile')
+        return io.BufferedWriter(raw, size) if 'w' in mode else io.BufferedReader(raw, size)
 
     def readable(self):
         self.net.pump()
